@@ -95,7 +95,8 @@ def integer(ctx, world, ev):
                "arbitrary_element is %s, expected pow(be2int(HKDF(seed)) %% p, (p-1)//q, p)" % [show(v, maxdepth=6) for v in vals], o.site)
         if ok:
             check_hkdf(ctx, "H4", gname + ".arbitrary_element", vals[0], INFO_ELEM, esz, seed, o.site)
-            okg = has_eq(conds, mk_app("Mult", (r, q)), mk_app("Sub", (p, Const(1))))
+            okg = has_eq(conds, mk_app("Mult", (r, q)), mk_app("Sub", (p, Const(1)))) \
+                or has_eq(conds, mk_app("Mod", (mk_app("Sub", (p, Const(1))), q)), Const(0))      # r*q == p-1  <=>  (p-1) % q == 0
             ctx.ob("H5", gname + " cofactor exact", okg, "guard r*q == p-1: the exponent is exactly the cofactor" if okg else
                    "no guard that (p-1)//q * q == p-1", o.site)
             okm = has_eq(conds, mk_app("pow", (vals[0], q, p)), Const(1))
